@@ -345,7 +345,7 @@ impl Prop for C09 {
     }
     fn runs(&self, tier: Tier) -> u64 {
         match tier {
-            Tier::Quick => 1600,
+            Tier::Quick => 2400,
             Tier::Thorough => 40000,
         }
     }
